@@ -1,7 +1,118 @@
-(* C13 — encrypted transport (placeholder while the proofs are being built). *)
-From Coq Require Import ZArith List.
-From EC Require Import Lib.Obs Lib.Outcome Model.Noise.
-Import ListNotations.
+(* C13 — The encrypted transport delivers exactly the bytes written, or fails.
+   Statements only; proofs are in Proofs/NoiseProofs.v.
 
-Example C13_nonvacuous_toy_roundtrip : toy_dec 3 (toy_enc 3 [1; 2; 3]%Z) = Some [1; 2; 3]%Z.
-Proof. reflexivity. Qed.
+   [run enc dec (sim_init PC) ops] executes ANY list of operations on one direction of a session:
+   poll_write of any bytes, poll_flush, poll_shutdown, poll_read with any buffer size, each with any
+   transport script (Pending / error / accept or deliver k bytes: every fragmentation, delay and
+   back-pressure pattern), and [OTamper f] for ANY function f on the bytes in flight.
+   enc/dec is the AEAD (H-AEAD): only [aead_len] (16 byte tag) and [aead_correct]
+   (dec n (enc n p) = Some p) are assumed; PC is MAX_PAYLOAD_LEN (any value with PC + 16 <= 65535,
+   the code's 65519 included: [C13_real_constants]). *)
+From Coq Require Import ZArith List.
+From EC Require Import Lib.Obs Lib.Outcome Model.Noise Proofs.NoiseProofs.
+Import ListNotations.
+Open Scope nat_scope.
+
+(* buffers_safe: no operation sequence panics (debug_assert, slice index, the n > 0 assertion of
+   poll_write) or exhausts the model's fuel; snow's write_message is never handed a payload that does
+   not fit; the buffers keep their sizes. *)
+Theorem C13_buffers_safe : forall enc dec PC, pc_ok PC -> aead_len enc ->
+  forall ops, exists s, run enc dec (sim_init PC) ops = Ok s /\
+    buf_size (w_payload (s_w s)) = PC /\ buf_size (w_frame (s_w s)) = FC PC /\
+    b_pre (w_payload (s_w s)) = [].
+Proof. exact c13_safe. Qed.
+Print Assumptions C13_buffers_safe.
+
+(* in every reachable state poll_write returns Ok(0) iff the input is empty, else 1 <= n <= len *)
+Theorem C13_poll_write_result : forall enc dec PC, pc_ok PC -> aead_len enc ->
+  forall ops s bytes sc, run enc dec (sim_init PC) ops = Ok s ->
+  exists w' n' r, poll_write enc (s_w s) (with_scripts (s_net s) sc []) bytes = Ok (w', n', r) /\
+    forall k, r = PReady k -> (k = 0 <-> bytes = []) /\ k <= length bytes.
+Proof. exact c13_poll_write. Qed.
+Print Assumptions C13_poll_write_result.
+
+(* frames_bounded + no_interleaved_frames: everything put on the transport, followed by the rest of
+   the pending frame, is the in-order concatenation of whole frames <len:u16le> ++ enc i payload_i,
+   nonce i = frame index, every payload has 1..PC bytes, every ciphertext at most 65535 bytes (so a
+   frame has at most 2 + 65535 bytes), and the accepted bytes are exactly the payloads in order
+   followed by the still unencrypted payload buffer. *)
+Theorem C13_frames_bounded : forall enc dec PC, pc_ok PC -> aead_len enc ->
+  forall ops s, run enc dec (sim_init PC) ops = Ok s ->
+  let payloads := w_sent (s_w s) in
+  n_hist (s_net s) ++ b_data (w_frame (s_w s)) = wire (encs enc 0 payloads) /\
+  Forall (fun p => 1 <= length p <= PC) payloads /\
+  Forall (fun c => (Z.of_nat (length c) <= 65535)%Z) (encs enc 0 payloads) /\
+  s_accepted s = concat payloads ++ b_data (w_payload (s_w s)).
+Proof. exact c13_frames. Qed.
+Print Assumptions C13_frames_bounded.
+
+(* tamper_detected: whatever the adversary does to the bytes in flight (any functions, at any
+   points), if it cannot forge - every ciphertext the reader accepted at position i under nonce i
+   decrypts to the i-th payload the writer encrypted ([authentic], the integrity half of H-AEAD) -
+   then what the reader delivered is a prefix of what the writer accepted: never altered, reordered,
+   duplicated or inserted plaintext. *)
+Theorem C13_tamper_detected : forall enc dec PC, pc_ok PC -> aead_len enc ->
+  forall ops s, run enc dec (sim_init PC) ops = Ok s -> authentic dec s ->
+  exists rest, s_accepted s = s_delivered s ++ rest.
+Proof. exact c13_tamper. Qed.
+Print Assumptions C13_tamper_detected.
+
+(* stream_refines_fifo: without tampering (only a correct AEAD is needed, no integrity assumption)
+   the delivered bytes are always a prefix of the accepted bytes, and equal them once the last
+   writer operation was a flush/shutdown that returned Ready(Ok) and the reader has drained the
+   transport and its buffers: no loss, duplication, insertion or reordering, for every write
+   size, read size and transport script. *)
+Theorem C13_stream_refines_fifo : forall enc dec PC, pc_ok PC -> aead_len enc -> aead_correct enc dec ->
+  forall ops s, untampered ops = true -> run enc dec (sim_init PC) ops = Ok s ->
+  (exists rest, s_accepted s = s_delivered s ++ rest) /\
+  (s_flushed s = true -> n_chan (s_net s) = [] -> b_data (r_frame (s_r s)) = [] ->
+   b_data (r_payload (s_r s)) = [] -> s_delivered s = s_accepted s).
+Proof. exact c13_fifo. Qed.
+Print Assumptions C13_stream_refines_fifo.
+
+(* replayed / reordered / spliced genuine frames: with a nonce-binding AEAD a genuine ciphertext is
+   accepted only at its own position, so [authentic] holds for them *)
+Theorem C13_nonce_binding : forall enc dec, aead_correct enc dec ->
+  (forall n c p, dec n c = Some p -> c = enc n p) ->
+  (forall n n' p p', enc n p = enc n' p' -> n = n' /\ p = p') ->
+  forall i j q p, dec i (enc j q) = Some p -> i = j /\ p = q.
+Proof. exact c13_nonce_binding. Qed.
+Print Assumptions C13_nonce_binding.
+
+(* the reader fails for good: after a decryption failure (InvalidData) every later poll_read, whatever
+   the transport does, reports the same failure and leaves the state unchanged - the frame is not
+   skipped, the nonce does not advance, nothing is delivered any more *)
+Theorem C13_decrypt_error_sticky : forall dec r n cap r' n',
+  poll_read dec r n cap = Ok (r', n', PErr EInvalidData) ->
+  forall n2 cap2, poll_read dec r' n2 cap2 = Ok (r', n2, PErr EInvalidData).
+Proof. exact c13_decrypt_error_sticky. Qed.
+Print Assumptions C13_decrypt_error_sticky.
+
+(* the constants of stream.rs are an instance *)
+Theorem C13_real_constants : pc_ok MAX_PAYLOAD_LEN /\ FC MAX_PAYLOAD_LEN = MAX_PAYLOAD_LEN + 18.
+Proof. split; [exact real_pc_ok|exact (FC_val MAX_PAYLOAD_LEN (proj1 real_pc_ok))]. Qed.
+Print Assumptions C13_real_constants.
+
+(* H-AEAD is satisfiable: the toy AEAD used by the correspondence check *)
+Theorem C13_toy_aead : aead_len toy_enc /\ aead_correct toy_enc toy_dec.
+Proof. split; [exact toy_enc_len|exact toy_dec_enc]. Qed.
+Print Assumptions C13_toy_aead.
+
+(* Non-vacuity (payload capacity 4 to keep the terms small): 6 bytes written in two writes, the
+   first flush gets 3 bytes out and then sees Pending, the second completes; reads of 5 and 10. *)
+Example C13_nonvacuous_delivery :
+  exists s, run toy_enc toy_dec (sim_init 4)
+      [OWrite [1; 2; 3; 4; 5; 6]%Z []; OWrite [5; 6]%Z []; OFlush [TOk 3; TPending];
+       OFlush []; ORead 5 [TOk 1; TOk 7]; ORead 10 []; ORead 10 []] = Ok s /\
+    s_accepted s = [1; 2; 3; 4; 5; 6]%Z /\ s_delivered s = [1; 2; 3; 4; 5; 6]%Z /\
+    s_flushed s = true /\ s_failed s = false /\ length (w_sent (s_w s)) = 2.
+Proof. eexists. split; [vm_compute; reflexivity|]. vm_compute. repeat split; reflexivity. Qed.
+
+(* ... and the same traffic with one bit of the second frame flipped in flight: the reader delivers
+   the first frame only and fails. *)
+Example C13_nonvacuous_tamper :
+  exists s, run toy_enc toy_dec (sim_init 4)
+      [OWrite [1; 2; 3; 4; 5; 6]%Z []; OWrite [5; 6]%Z []; OFlush [];
+       OTamper (tamper_of (KFlipBody 1 0 1)); ORead 10 []; ORead 10 []; ORead 10 []] = Ok s /\
+    s_accepted s = [1; 2; 3; 4; 5; 6]%Z /\ s_delivered s = [1; 2; 3; 4]%Z /\ s_failed s = true.
+Proof. eexists. split; [vm_compute; reflexivity|]. vm_compute. repeat split; reflexivity. Qed.
